@@ -266,8 +266,8 @@ def run(ctx):
             j0 = rng.randrange(su.nparts)
             def pick(n, k):  # noqa: E306
                 return range(n + 1) if ctx.thorough else sorted(set(rng.sample(range(n + 1), min(k, n + 1))) | {1, n // 2})
-            for k in pick(n_init, 5):
-                hists.append(("kill init", [(("init",), k), (P(0), None), (("finalise",), None)]))
+            for k in sorted(set(pick(n_init, 5)) | set(range(max(0, n_init - 8), n_init + 1))):
+                hists.append(("kill init", [(("init",), k)] + allp + [(("finalise",), None)]))
             for k in pick(n_p[j0], 12):
                 hists.append(("kill partition", [(("init",), None)] + [p for p in allp if p[0] != P(j0)] + [(P(j0), k)]))
             # rerun of an already encoded partition, killed (the swap of p<j>): then finalise must not produce a bad store
